@@ -380,6 +380,7 @@ class Check:
         self.notes = {}
         self.proof_ok = None
         self.broken = []
+        self.tie_fallback = {}
 
     # ---- proofs ----
     def build_props(self, timeout=1500):
@@ -396,6 +397,9 @@ class Check:
             names += _THM.findall(re.sub(r"\(\*.*?\*\)", "", open(props).read(), flags=re.S))
         self.coverage["obligations"] = len(names)
         vos = ["Props/" + os.path.basename(f)[:-2] + ".vo" for f in files]
+        # refutation witnesses of this property are rebuilt too (they must stay checkable against the
+        # current model / fragments); they are not counted as obligations
+        ref_vos = ["Refuted/" + os.path.basename(f)[:-2] + ".vo" for f in sorted(_glob.glob(os.path.join(COQ, "Refuted", f"{self.pid}_*.v")))]
         vo = " ".join(vos)
         with coq_lock():
             st = gen.regenerate(self.groups)
@@ -407,13 +411,19 @@ class Check:
                     os.remove(os.path.join(COQ, v))
                 except OSError:
                     pass
-            rc, out, err, dt = run(["make", "-j16", "COQC=timeout 900 coqc", *vos], timeout=timeout, cwd=COQ)
+            rc, out, err, dt = run(["make", "-j16", "COQC=timeout 900 coqc", *vos, *ref_vos], timeout=timeout, cwd=COQ)
+        self.notes["refuted_witnesses_rebuilt"] = ref_vos
         cmd = f"cd {COQ} && make -j16 {vo}   (coqc 8.16.1, full .vo build; Print Assumptions after every theorem)"
         self.coverage["checker_cmd"] = cmd
         self.notes["proof_build_s"] = round(dt, 1)
         fb = [g for g, s in st.items() if not s["status"].startswith("generated")]
         if fb:
+            # the translator could not regenerate these groups from the current source: the theorems
+            # were rebuilt against the pinned copies, i.e. they are NOT re-established for this tree.
+            # finish() reports this as a broken obligation unless the correspondence/oracle campaign
+            # produces a concrete failing input (then that is the report).
             self.notes["fragment_fallback"] = {g: st[g]["status"] for g in fb}
+            self.tie_fallback = {g: st[g]["status"] for g in fb}
         if rc != 0:
             self.proof_ok = False
             m = re.search(r'File "\./([^"]+)", line (\d+)', err)
@@ -498,6 +508,11 @@ class Check:
             # a proof / assumption check broke and no concrete failing input was found
             self.violation("proof-broken", "theorem or interface lemma no longer checks: " + "; ".join(b["where"] for b in self.broken),
                            {"broken": self.broken, "fragments": self.notes.get("fragments")}, found_input=False)
+        if self.tie_fallback and not any(v for v in self.violations if (self.pid, v["signature"]) not in kf):
+            self.violation("fragment-not-regenerated",
+                           "the fragment translator could not regenerate " + ", ".join(sorted(self.tie_fallback)) +
+                           " from the current source (fell back to the pinned copy): the interface lemmas are not re-established for this tree",
+                           {"fallback": self.tie_fallback, "correspondence": "translate/specs/<group>.py vs the current source"}, found_input=False)
         lines, new = [], 0
         seen_known = set()
         for v in self.violations:
